@@ -254,7 +254,7 @@ def fp_drpcstream_inspectmu_inspectMutex_Unlocked : List String :=
   ["return", "==", "call:atomic.LoadUint32", "u&", "0"]
 def fp_drpcstream_stream_Stream_HandlePacket : List String :=
   ["if", "!=", "return", "call:drpcopts.GetStreamStats().AddRead", "call:drpcopts.GetStreamStats", 
-    "u&", "call:uint64", "call:len", "if", "call:s.sigs.term.IsSet", "return", "call:s.log", "s:HANDLE", 
+    "u&", "call:uint64", "call:len", "if", "call:s.IsFinished", "return", "call:s.log", "s:HANDLE", 
     "if", "==", "call:s.pbuf.Put", "return", "call:s.mu.Lock", "defer", "call:s.mu.Unlock", "switch", 
     "case", "=err", "call:drpc.ProtocolError.New", "s:invoke on existing stream", "call:s.terminate", 
     "return", "case", "=err", "call:drpcwire.UnmarshalError", "call:s.sigs.send.Set", "call:s.terminate", 
@@ -353,42 +353,52 @@ def fp_drpcmanager_manager_NewWithOptions : List String :=
 def fp_drpcmanager_manager_Manager_acquireSemaphore : List String :=
   ["if", "=err", "=ok", "call:m.sigs.term.Get", "return", "if", "=err", "call:ctx.Err", "!=", 
     "return", "select", "u<-", "call:ctx.Done", "return", "call:ctx.Err", "u<-", "call:m.sigs.term.Signal", 
-    "return", "call:m.sigs.term.Err", "send", "call:m.sem.Get", "if", "=err", "call:m.waitForPreviousStream", 
-    "!=", "call:m.sem.Recv", "return", "return"]
+    "return", "call:m.sigs.term.Err", "send", "call:m.sem.Get", "call:drpcdebug.Event", "s:sem.acq", 
+    "0", "if", "=err", "call:m.waitForPreviousStream", "!=", "call:drpcdebug.Event", "s:sem.rel", 
+    "0", "call:m.sem.Recv", "return", "return"]
 def fp_drpcmanager_manager_Manager_waitForPreviousStream : List String :=
-  ["=prev", "call:m.sbuf.Get", "if", "==", "return", "if", "call:prev.IsFinished", "return", "call:m.log", 
-    "s:WAIT", "select", "u<-", "call:ctx.Done", "return", "call:ctx.Err", "u<-", "call:m.sigs.term.Signal", 
-    "return", "call:m.sigs.term.Err", "u<-", "call:prev.Finished", "return"]
+  ["=prev", "call:m.sbuf.Get", "if", "==", "call:drpcdebug.Event", "s:prev.none", "0", "return", 
+    "if", "call:prev.IsFinished", "call:drpcdebug.Event", "s:prev.done", "call:prev.ID", "return", 
+    "call:m.log", "s:WAIT", "select", "u<-", "call:ctx.Done", "return", "call:ctx.Err", "u<-", 
+    "call:m.sigs.term.Signal", "return", "call:m.sigs.term.Err", "u<-", "call:prev.Finished", "call:drpcdebug.Event", 
+    "s:prev.done", "call:prev.ID", "return"]
 def fp_drpcmanager_manager_Manager_terminate : List String :=
-  ["if", "call:m.sigs.term.Set", "call:m.log", "s:TERM", "return", "call:fmt.Sprint", "call:m.sigs.tport.Set", 
+  ["if", "call:m.sigs.term.Set", "call:drpcdebug.Event", "s:term", "0", "call:m.log", "s:TERM", 
+    "return", "call:fmt.Sprint", "call:drpcdebug.Event", "s:tport.close", "0", "call:m.sigs.tport.Set", 
     "call:m.tr.Close", "call:m.sbuf.Close"]
 def fp_drpcmanager_manager_Manager_manageReader : List String :=
   ["defer", "call:m.sigs.read.Set", "for", "u!", "call:m.sigs.term.IsSet", "if", ">", "10", "=pkt.Data", 
     "=run", "0", "=pkt", "=err", "call:m.rd.ReadPacketUsing", "slice", "0", "if", "!=", "if", "call:isConnectionReset", 
     "=err", "call:drpc.ClosedError.Wrap", "call:m.terminate", "call:managerClosed.Wrap", "return", 
     "if", "<", "call:len", "/", "call:cap", "4", "++", "=run", "0", "call:m.log", "s:READ", "switch", 
-    "=curr", "call:m.sbuf.Get", "case", "&&", "!=", "==", "call:curr.ID", "if", "=err", "call:curr.HandlePacket", 
-    "!=", "call:m.terminate", "call:managerClosed.Wrap", "return", "case", "&&", "!=", "<", "call:curr.ID", 
-    "case", "||", "==", "==", "if", "&&", "!=", "u!", "call:curr.IsTerminated", "call:curr.Cancel", 
-    "select", "send", "call:m.pdone.Recv", "u<-", "call:m.sigs.term.Signal", "return", "default", 
-    "if", "&&", "!=", "u!", "call:curr.IsTerminated", "call:curr.Cancel", "if", "u!", "call:m.sbuf.Wait", 
-    "call:curr.ID", "return", "goto"]
+    "=curr", "call:m.sbuf.Get", "case", "&&", "!=", "==", "call:curr.ID", "call:drpcdebug.Event", 
+    "s:rd.deliver", "if", "=err", "call:curr.HandlePacket", "!=", "call:m.terminate", "call:managerClosed.Wrap", 
+    "return", "case", "&&", "!=", "<", "call:curr.ID", "call:drpcdebug.Event", "s:rd.drop", "case", 
+    "||", "==", "==", "if", "&&", "!=", "u!", "call:curr.IsTerminated", "call:curr.Cancel", "call:drpcdebug.Event", 
+    "s:rd.queue", "select", "send", "call:m.pdone.Recv", "u<-", "call:m.sigs.term.Signal", "return", 
+    "default", "if", "&&", "!=", "u!", "call:curr.IsTerminated", "call:curr.Cancel", "call:drpcdebug.Event", 
+    "s:rd.wait", "if", "u!", "call:m.sbuf.Wait", "call:curr.ID", "return", "goto"]
 def fp_drpcmanager_manager_Manager_newStream : List String :=
   ["=opts", "call:drpcopts.SetStreamKind", "u&", "call:drpcopts.SetStreamRPC", "u&", "if", "=cb", 
     "call:drpcopts.GetManagerStatsCB", "u&", "!=", "call:drpcopts.SetStreamStats", "u&", "call:cb", 
-    "=stream", "call:drpcstream.NewWithOptions", "select", "send", "call:m.sbuf.Set", "call:m.log", 
-    "s:STREAM", "return", "u<-", "call:m.sigs.term.Signal", "return", "call:m.sigs.term.Err"]
+    "=stream", "call:drpcstream.NewWithOptions", "select", "send", "call:drpcdebug.Event", "s:stream.new.begin", 
+    "call:m.sbuf.Set", "call:drpcdebug.Event", "s:stream.new.end", "call:m.log", "s:STREAM", "return", 
+    "u<-", "call:m.sigs.term.Signal", "return", "call:m.sigs.term.Err"]
 def fp_drpcmanager_manager_Manager_manageStreams : List String :=
   ["defer", "call:m.sigs.stream.Set", "for", "select", "=si", "u<-", "call:m.manageStream", "u<-", 
     "call:m.sigs.term.Signal", "return"]
 def fp_drpcmanager_manager_Manager_manageStream : List String :=
   ["select", "u<-", "call:m.sigs.term.Signal", "=err", "call:m.sigs.term.Err", "if", "call:errors.Is", 
-    "=err", "call:stream.Cancel", "u<-", "call:m.sem.Recv", "u<-", "call:m.sem.Recv", "u<-", "call:ctx.Done", 
-    "call:m.log", "s:CANCEL", "if", "call:m.sem.Recv", "if", "=busy", "=err", "call:stream.SendCancel", 
-    "call:ctx.Err", "!=", "call:m.terminate", "if", "call:m.log", "s:BUSY", "call:m.terminate", 
-    "call:ctx.Err", "call:stream.Cancel", "call:ctx.Err", "u<-", "if", "u!", "call:stream.Cancel", 
-    "call:ctx.Err", "call:m.log", "s:UNFIN", "call:m.terminate", "call:ctx.Err", "call:m.log", 
-    "s:CLEAN", "u<-", "call:m.sem.Recv"]
+    "=err", "call:stream.Cancel", "u<-", "call:drpcdebug.Event", "s:sfin.recv", "call:stream.ID", 
+    "call:drpcdebug.Event", "s:sem.rel", "0", "call:m.sem.Recv", "u<-", "call:drpcdebug.Event", 
+    "s:sfin.recv", "call:stream.ID", "call:drpcdebug.Event", "s:sem.rel", "0", "call:m.sem.Recv", 
+    "u<-", "call:ctx.Done", "call:m.log", "s:CANCEL", "if", "call:drpcdebug.Event", "s:sem.rel", 
+    "0", "call:m.sem.Recv", "if", "=busy", "=err", "call:stream.SendCancel", "call:ctx.Err", "!=", 
+    "call:m.terminate", "if", "call:m.log", "s:BUSY", "call:m.terminate", "call:ctx.Err", "call:stream.Cancel", 
+    "call:ctx.Err", "u<-", "call:drpcdebug.Event", "s:sfin.recv", "call:stream.ID", "if", "u!", 
+    "call:stream.Cancel", "call:ctx.Err", "call:m.log", "s:UNFIN", "call:m.terminate", "call:ctx.Err", 
+    "call:m.log", "s:CLEAN", "u<-", "call:drpcdebug.Event", "s:sfin.recv", "call:stream.ID", "call:drpcdebug.Event", 
+    "s:sem.rel", "0", "call:m.sem.Recv"]
 def fp_drpcmanager_manager_Manager_Close : List String :=
   ["call:m.terminate", "call:managerClosed.New", "s:Close called", "call:m.sigs.stream.Wait", 
     "call:m.sigs.read.Wait", "call:m.sigs.tport.Wait", "return", "call:m.sigs.tport.Err"]
@@ -397,13 +407,13 @@ def fp_drpcmanager_manager_Manager_NewClientStream : List String :=
     "call:m.sbuf.Get().ID", "call:m.sbuf.Get", "1", "s:cli"]
 def fp_drpcmanager_manager_Manager_NewServerStream : List String :=
   ["if", "=err", "call:m.acquireSemaphore", "!=", "return", "s:", "defer", "call:func", "if", 
-    "!=", "call:m.sem.Recv", "if", "=timeout", ">", "0", "=timer", "call:time.NewTimer", "defer", 
-    "call:timer.Stop", "=timeoutCh", "for", "select", "u<-", "return", "s:", "u<-", "call:ctx.Done", 
-    "return", "s:", "call:ctx.Err", "u<-", "call:m.sigs.term.Signal", "return", "s:", "call:m.sigs.term.Err", 
-    "=pkt", "u<-", "switch", "case", "=meta", "=err", "call:drpcmetadata.Decode", "call:m.pdone.Send", 
-    "if", "!=", "return", "s:", "=metaID", "case", "=rpc", "call:string", "call:m.pdone.Send", 
-    "if", "==", "=ctx", "call:drpcmetadata.AddPairs", "=stream", "=err", "call:m.newStream", "s:srv", 
-    "return", "default", "call:m.pdone.Send"]
+    "!=", "call:drpcdebug.Event", "s:sem.rel", "0", "call:m.sem.Recv", "if", "=timeout", ">", "0", 
+    "=timer", "call:time.NewTimer", "defer", "call:timer.Stop", "=timeoutCh", "for", "select", 
+    "u<-", "return", "s:", "u<-", "call:ctx.Done", "return", "s:", "call:ctx.Err", "u<-", "call:m.sigs.term.Signal", 
+    "return", "s:", "call:m.sigs.term.Err", "=pkt", "u<-", "switch", "case", "=meta", "=err", "call:drpcmetadata.Decode", 
+    "call:m.pdone.Send", "if", "!=", "return", "s:", "=metaID", "case", "=rpc", "call:string", 
+    "call:m.pdone.Send", "if", "==", "=ctx", "call:drpcmetadata.AddPairs", "=stream", "=err", "call:m.newStream", 
+    "s:srv", "return", "default", "call:m.pdone.Send"]
 def fp_drpcmanager_manager_Manager_Unblocked : List String :=
   ["if", "=prev", "call:m.sbuf.Get", "!=", "return", "call:prev.Context().Done", "call:prev.Context", 
     "return"]
